@@ -7,8 +7,15 @@
   (null everywhere, integers integral and within the kind's range, arrays of any length, objects with known
   keys only — exact or case-insensitive match); `EncJson.PlainInts j`: every integer-valued number of `j`
   lies within int64 (the schema states no bound for int / int64 and no maximum for uint / uint64 / uintptr).
+
+  With embedded struct fields (last section; helper lemmas: JSV/Proofs/InfEmbTight.lean): `Go.forTypeE` is the model
+  of `ForType` (JSV/Model/InferEmb.lean), `EncJsonEmb.decodableE` the decoder with DisallowUnknownFields over
+  encoding/json's `typeFields` (JSV/Spec/EncJsonEmb.lean).
 -/
 import JSV.Proofs.InfTight
+import JSV.Proofs.InfEmbTight
+import JSV.Props.C04
+import JSV.Props.C16
 namespace JSV.C09
 open JSV Go EncJson Spec
 
@@ -182,5 +189,178 @@ example : (match forType {} 3 (.map "String" (.ptr (.basic "Uint8"))) #[] with
 example : decodable (.map "String" (.ptr (.basic "Uint8"))) (.obj [("a", .num 255), ("b", .null)]) = true := by decide
 example : decodable (.map "String" (.ptr (.basic "Uint8"))) (.obj [("a", .num 256)]) = false := by decide
 example : PlainInts (.obj [("a", .num 255), ("b", .null)]) = true := by decide
+
+/-! ## embedded struct fields (`forTypeE`; the strict decoder: `EncJsonEmb.decodableE`) -/
+
+open EncJsonEmb in
+/-- **main, with embedded fields (partial)**: for a type of the domain `InDomainE` — `InDomain` plus embedded fields
+    that are untagged exported declared struct types, by value or by pointer, such that within every tree of embedded
+    structs the JSON name of a field is determined by its Go name and vice versa and no Go name occurs twice at one
+    depth (`namesOk`) — a document that the schema returned by `ForType` accepts is one that json.Decoder with
+    DisallowUnknownFields accepts for the type: its keys are JSON names of `typeFields` (the promoted fields included)
+    and every member decodes into the dominant field of that name.
+
+    `hno` (`EmbNotInTable`): no embedded field, at any level of `T`, is of a type with a TypeSchemas entry (as in
+    `C04.infer_soundE_partial`; with an override the properties of the override replace the promoted ones, and the
+    decoder knows nothing of them).
+
+    Partial, what is missing: types outside `InDomainE`: D14 (a JSON name shared by two Go names), D16 (tagged /
+    non-struct / unexported embedded fields), named types in non-embedded positions (as in `infer_tight`). -/
+theorem infer_tightE_partial (opts : IOpts) (fuel : Nat) (T : GoTypeE) (st : Store) (id : NodeId) (st' : Store)
+    (re : String → String → Bool) (hno : EmbNotInTable opts T) (hdom : InDomainE T = true)
+    (h : forTypeE opts fuel T st = .ok (some id, st')) (j : Json) (hp : PlainInts j = true)
+    (fuel' : Nat) (hv : Spec.valid (specEnvNoRefs st' re) fuel' id j = some true) :
+    decodableE T j = true := by
+  obtain ⟨id', hid, hm⟩ := inferFuelE_models opts fuel T [] st (some id) st' hdom hno h
+  cases hid
+  exact tightE (re := re) (wt T) T (Nat.le_refl _) hdom false id hm fuel' [] j hp (valid_iff_isSome.2 hv)
+
+open EncJsonEmb in
+/-- contrapositive: what does not decode is not accepted (same domain, partial in the same sense) -/
+theorem not_decodable_rejectedE_partial (opts : IOpts) (fuel : Nat) (T : GoTypeE) (st : Store) (id : NodeId) (st' : Store)
+    (re : String → String → Bool) (hno : EmbNotInTable opts T) (hdom : InDomainE T = true)
+    (h : forTypeE opts fuel T st = .ok (some id, st')) (j : Json) (hp : PlainInts j = true)
+    (hnd : decodableE T j = false) (fuel' : Nat) :
+    Spec.valid (specEnvNoRefs st' re) fuel' id j ≠ some true := by
+  intro hv
+  rw [infer_tightE_partial opts fuel T st id st' re hno hdom h j hp fuel' hv] at hnd
+  cases hnd
+
+open EncJsonEmb in
+/-- (1) an object that lacks an always-written field of `typeFields` — a promoted one included — is rejected (the
+    decoder would accept: this one is the schema's own).  Same domain as `infer_tightE_partial`. -/
+theorem missing_required_rejectedE (opts : IOpts) (fuel : Nat) (fields : List (FieldE GoTypeE)) (st : Store)
+    (id : NodeId) (st' : Store) (re : String → String → Bool) (hno : EmbNotInTable opts (.struct fields))
+    (hdom : InDomainE (.struct fields) = true)
+    (h : forTypeE opts fuel (.struct fields) st = .ok (some id, st'))
+    (kvs : List (String × Json)) (k : String) (hk : k ∈ alwaysFieldNames fields) (hmiss : Json.lookup k kvs = none)
+    (fuel' : Nat) :
+    Spec.valid (specEnvNoRefs st' re) fuel' id (.obj kvs) ≠ some true := by
+  intro hv
+  obtain ⟨id', hid, hm⟩ := inferFuelE_models opts fuel _ [] st (some id) st' hdom hno h
+  cases hid
+  have := requiredE (re := re) hdom hm (valid_iff_isSome.2 hv) k hk
+  rw [hmiss] at this
+  cases this
+
+open EncJsonEmb in
+/-- (2) an undeclared property is rejected: a key that is the JSON name of no dominant field of the tree of embedded
+    structs, exactly or case-insensitively.  Same domain as `infer_tightE_partial`. -/
+theorem undeclared_property_rejectedE (opts : IOpts) (fuel : Nat) (fields : List (FieldE GoTypeE)) (st : Store)
+    (id : NodeId) (st' : Store) (re : String → String → Bool) (hno : EmbNotInTable opts (.struct fields))
+    (hdom : InDomainE (.struct fields) = true)
+    (h : forTypeE opts fuel (.struct fields) st = .ok (some id, st'))
+    (kvs : List (String × Json)) (hp : PlainInts (.obj kvs) = true) (k : String) (v : Json) (hkv : (k, v) ∈ kvs)
+    (hexact : decodableFindE (candidates [] 0 fields) (fun n k => n == k) [] 0 fields k v = none)
+    (hfold : decodableFindE (candidates [] 0 fields) foldEq [] 0 fields k v = none) (fuel' : Nat) :
+    Spec.valid (specEnvNoRefs st' re) fuel' id (.obj kvs) ≠ some true := by
+  refine not_decodable_rejectedE_partial opts fuel _ st id st' re hno hdom h _ hp ?_ fuel'
+  simp only [decodableE]
+  cases hall : kvs.all fun p =>
+      match decodableFindE (candidates [] 0 fields) (fun n k => n == k) [] 0 fields p.1 p.2 with
+      | some b => b
+      | none => (decodableFindE (candidates [] 0 fields) foldEq [] 0 fields p.1 p.2).getD false with
+  | false => rfl
+  | true =>
+    have := List.all_eq_true.1 hall (k, v) hkv
+    simp [hexact, hfold] at this
+
+/-! ### the hypotheses are satisfiable, the statements discriminate (labelled tests)
+
+  `struct{ Inner; A int "json:\"a\"" }` with `type Inner struct { X int "json:\"x\""; Y string "json:\"y,omitempty\"" }`
+  (`C04.embedValT`).  `tagLookup` splits the tag with `String.splitOn`, which the kernel does not evaluate: what the tag
+  parser returns for each tag is a hypothesis (the parser is specified in C16: `fieldJSONInfo_named`, …). -/
+
+section WitnessesE
+open EncJsonEmb
+variable (tI tX tY tA : String)
+  (hI : tagLookup "json" tI = none)                                        -- the embedded field has no json tag
+  (hX : fieldJSONInfo "X" tX = { name := "x" }) (hY : fieldJSONInfo "Y" tY = { name := "y", omitempty := true })
+  (hA : fieldJSONInfo "A" tA = { name := "a" })
+  (dX : tagLookup "jsonschema" tX = none) (dY : tagLookup "jsonschema" tY = none) (dA : tagLookup "jsonschema" tA = none)
+
+include hX hY hA dX dY dA in
+/-- `ForType` succeeds on the type: the hypothesis `h` of the theorems is satisfiable -/
+theorem embedVal_infers : ∃ id st', forTypeE {} 3 (C04.embedValT tI tX tY tA) #[] = .ok (some id, st') := by
+  simp [C04.embedValT, C04.fld, C04.emb, forTypeE, inferFuelE, inferStepE, stripPtrsE, typeNameE, visibleFields, allFields,
+    embFields, isVisible, structLoopE, fieldStepE, fieldJSONInfoE, underSkip, overrideOf, addFieldE, hX, hY, hA, dX, dY, dA,
+    Res.bind_ok, C16.kindEntry_Int, C16.kindEntry_String, Store.alloc, Store.get?, addNull, dedupKeepLast]
+
+include hI hX hY hA in
+/-- the always-written names of the type: the promoted `x` and the outer `a` -/
+theorem embedVal_always : alwaysFieldNames [C04.emb "Inner" tI (.named "Inner" (.struct [C04.fld "X" tX (.basic "Int"),
+      C04.fld "Y" tY (.basic "String")])), C04.fld "A" tA (.basic "Int")] = ["x", "a"] := by
+  have hIo := (fieldJSONInfo_untagged (g := "Inner") (tag := tI) (by rw [hI]; rfl))
+  simp [C04.fld, C04.emb, alwaysFieldNames, typeFields, candidates, embCandidates, classify, mkTField, isDominant,
+    dominates, isStructE, derefE, hIo.1, hIo.2, hX, hY, hA]
+
+include hI hX hY hA in
+/-- accepted, hence decodes: `{"x":1,"a":2}` (accepted by `C04.infer_soundE_partial`: it is the encoding of
+    `{Inner: {X: 1, Y: ""}, A: 2}`); `infer_tightE_partial` applied -/
+theorem embedVal_accepted_decodes (id : NodeId) (st' : Store) (h : forTypeE {} 3 (C04.embedValT tI tX tY tA) #[] = .ok (some id, st')) :
+    Spec.valid (specEnvNoRefs st') 4 id (.obj [("x", .num 1), ("a", .num 2)]) = some true ∧
+    decodableE (C04.embedValT tI tX tY tA) (.obj [("x", .num 1), ("a", .num 2)]) = true := by
+  have hIo := (fieldJSONInfo_untagged (g := "Inner") (tag := tI) (by rw [hI]; rfl))
+  have hnt := (embNotInTable_of_empty (opts := {}) (fun _ => rfl) _).1 (C04.embedValT tI tX tY tA) (Nat.le_refl _)
+  have hd := C04.embedVal_inDomain tI tX tY tA hI hX hY hA
+  have hs := C04.infer_soundE_partial {} 3 _ #[] id st' (fun _ _ => false) rfl hnt hd h _
+    (C04.embedVal_hasType tI tX tY tA hI hX hY hA) 4 (by simp [C04.embedValT, C04.fld, C04.emb, depthE, depthFieldsE])
+  have hv : Spec.valid (specEnvNoRefs st') 4 id (.obj [("x", .num 1), ("a", .num 2)]) = some true := by
+    simpa [C04.embedValT, C04.fld, C04.emb, encodeE, encodeFieldsE, encodeEmbE, candidates, embCandidates, classify, mkTField,
+      isDominant, dominates, isStructE, derefE, hIo.1, hIo.2, hX, hY, hA, fieldSkipped, isEmptyValue] using hs
+  exact ⟨hv, infer_tightE_partial {} 3 _ #[] id st' (fun _ _ => false) hnt hd h _ (by decide) 4 hv⟩
+
+include hI hX hY hA in
+/-- … the same verdict of the decoder, evaluated: `x` is found through the embedded struct -/
+example : decodableE (C04.embedValT tI tX tY tA) (.obj [("x", .num 1), ("a", .num 2)]) = true := by
+  have hIo := (fieldJSONInfo_untagged (g := "Inner") (tag := tI) (by rw [hI]; rfl))
+  simp [C04.embedValT, C04.fld, C04.emb, decodableE, decodableFindE, decodableEmbFindE, candidates, embCandidates, classify,
+    mkTField, isDominant, dominates, isStructE, derefE, hIo.1, hIo.2, hX, hY, hA, decodableBasic, intRange]
+  exact ⟨Or.inr ⟨by decide, by decide⟩, Or.inr ⟨by decide, by decide⟩⟩
+
+include hI hX hY hA in
+/-- rejected, an unknown key: `{"x":1,"a":2,"z":3}` (`undeclared_property_rejectedE`), at every fuel -/
+theorem embedVal_unknown_key_rejected (id : NodeId) (st' : Store) (h : forTypeE {} 3 (C04.embedValT tI tX tY tA) #[] = .ok (some id, st')) (fuel' : Nat) :
+    Spec.valid (specEnvNoRefs st') fuel' id (.obj [("x", .num 1), ("a", .num 2), ("z", .num 3)]) ≠ some true := by
+  have hIo := (fieldJSONInfo_untagged (g := "Inner") (tag := tI) (by rw [hI]; rfl))
+  have hnt := (embNotInTable_of_empty (opts := {}) (fun _ => rfl) _).1 (C04.embedValT tI tX tY tA) (Nat.le_refl _)
+  have hd := C04.embedVal_inDomain tI tX tY tA hI hX hY hA
+  have fx : foldEq "x" "z" = false := by decide
+  have fy : foldEq "y" "z" = false := by decide
+  have fa : foldEq "a" "z" = false := by decide
+  refine undeclared_property_rejectedE {} 3 _ #[] id st' (fun _ _ => false) hnt hd h _ (by decide) "z" (.num 3)
+    (by simp) ?_ ?_ fuel'
+  · simp [C04.fld, C04.emb, decodableFindE, decodableEmbFindE, classify, isStructE, derefE, hIo.1, hIo.2, hX, hY, hA]
+  · simp [C04.fld, C04.emb, decodableFindE, decodableEmbFindE, classify, isStructE, derefE, hIo.1, hIo.2, hX, hY, hA,
+      fx, fy, fa]
+
+include hI hX hY hA in
+/-- rejected, a missing required promoted field: `{"a":2}` lacks `x` of the embedded `Inner`
+    (`missing_required_rejectedE`) — although the decoder accepts it -/
+theorem embedVal_missing_promoted_rejected (id : NodeId) (st' : Store) (h : forTypeE {} 3 (C04.embedValT tI tX tY tA) #[] = .ok (some id, st')) (fuel' : Nat) :
+    Spec.valid (specEnvNoRefs st') fuel' id (.obj [("a", .num 2)]) ≠ some true ∧
+    decodableE (C04.embedValT tI tX tY tA) (.obj [("a", .num 2)]) = true := by
+  have hIo := (fieldJSONInfo_untagged (g := "Inner") (tag := tI) (by rw [hI]; rfl))
+  have hnt := (embNotInTable_of_empty (opts := {}) (fun _ => rfl) _).1 (C04.embedValT tI tX tY tA) (Nat.le_refl _)
+  have hd := C04.embedVal_inDomain tI tX tY tA hI hX hY hA
+  refine ⟨missing_required_rejectedE {} 3 _ #[] id st' (fun _ _ => false) hnt hd h _ "x" ?_ (by simp [Json.lookup]) fuel', ?_⟩
+  · rw [embedVal_always tI tX tY tA hI hX hY hA]
+    simp
+  · simp [C04.embedValT, C04.fld, C04.emb, decodableE, decodableFindE, decodableEmbFindE, candidates, embCandidates, classify,
+      mkTField, isDominant, dominates, isStructE, derefE, hIo.1, hIo.2, hX, hY, hA, decodableBasic, intRange]
+    exact Or.inr ⟨by decide, by decide⟩
+
+include hI hX hY hA dX dY dA in
+/-- all of it about the schema `ForType` actually returns for the type -/
+example : ∃ id st', forTypeE {} 3 (C04.embedValT tI tX tY tA) #[] = .ok (some id, st') ∧
+    Spec.valid (specEnvNoRefs st') 4 id (.obj [("x", .num 1), ("a", .num 2)]) = some true ∧
+    (∀ fuel', Spec.valid (specEnvNoRefs st') fuel' id (.obj [("x", .num 1), ("a", .num 2), ("z", .num 3)]) ≠ some true) ∧
+    (∀ fuel', Spec.valid (specEnvNoRefs st') fuel' id (.obj [("a", .num 2)]) ≠ some true) := by
+  obtain ⟨id, st', h⟩ := embedVal_infers tI tX tY tA hX hY hA dX dY dA
+  exact ⟨id, st', h, (embedVal_accepted_decodes tI tX tY tA hI hX hY hA id st' h).1,
+    fun fuel' => embedVal_unknown_key_rejected tI tX tY tA hI hX hY hA id st' h fuel',
+    fun fuel' => (embedVal_missing_promoted_rejected tI tX tY tA hI hX hY hA id st' h fuel').1⟩
+
+end WitnessesE
 
 end JSV.C09
